@@ -2435,6 +2435,10 @@ type repoT struct {
 	mutSavedID uint64
 	mutMu      sync.RWMutex
 
+	// saveMu makes serializing the repo and writing it to the metadata store one atomic
+	// step with respect to other saves.  Not persisted.
+	saveMu sync.Mutex
+
 	// dagMu serializes requests that extend the DAG (new version, branch, merge) so
 	// their uniqueness checks and the insertion of the child node are atomic.
 	// Not persisted.
@@ -2769,6 +2773,12 @@ func (r *repoT) saveToStore(db storage.OrderedKeyValueDB) error {
 	if db == nil {
 		return fmt.Errorf("cannot save repo to nil store")
 	}
+	// Two concurrent saves must not be able to store their snapshots in the opposite order
+	// to the one in which they were taken, or the older snapshot wins and an acknowledged
+	// change (e.g. a new data instance) silently disappears at the next restart.
+	r.saveMu.Lock()
+	defer r.saveMu.Unlock()
+
 	r.RLock()
 	compression, err := dvid.NewCompression(dvid.LZ4, dvid.DefaultCompression)
 	if err != nil {
